@@ -39,6 +39,7 @@ class Loop:
 
 class Guard:
     def __init__(self, test, positive, rf, node=None):
+        self.early = False          # pushed because the other side left the block
         self.test = test            # ast expr (or None for except)
         self.positive = positive
         self.rf = rf
@@ -132,7 +133,10 @@ class Flow:
                     # the rest of this block runs only when the non-terminating
                     # side was taken
                     test_rf = self._if_rf
-                    self.guards.append(Guard(s.test, t == 'orelse', test_rf, s))
+                    g = Guard(s.test, t == 'orelse', test_rf, s)
+                    g.early = True
+                    self.guards.append(g)
+                    self.assume(test_rf, t == 'orelse')
                     pushed += 1
                 continue
             self.stmt(s)
@@ -150,11 +154,13 @@ class Flow:
         self.ev('if', s, test=test_rf)
         env0 = dict(self.env)
         self.guards.append(Guard(s.test, True, test_rf, s))
+        self.assume(test_rf, True)
         tb = self.block(s.body)
         self.guards.pop()
         env_b = dict(self.env)
         self.conv.env.clear()
         self.conv.env.update(env0)
+        self.assume(test_rf, False)
         self.guards.append(Guard(s.test, False, test_rf, s))
         to = self.block(s.orelse) if s.orelse else False
         self.guards.pop()
@@ -185,9 +191,48 @@ class Flow:
         self.conv.env.update(merged)
         return None
 
+    ALLOC_FNS = ('fn:zeros', 'fn:ones', 'fn:empty', 'fn:zeros_like',
+                 'fn:ones_like', 'fn:empty_like', 'fn:full')
+
+    def fresh(self, name, value_rf):
+        """A fresh array allocation gets its own identity (two zeros() calls
+        are two buffers even when their shapes are equal)."""
+        self._nalloc = getattr(self, '_nalloc', {})
+        self._nalloc[name] = self._nalloc.get(name, 0) + 1
+        return self.tab.atom('alloc', (value_rf, '%s#%d' % (name, self._nalloc[name])))
+
+    def is_alloc(self, rf):
+        a = rf.single_atom()
+        if a is None:
+            return False
+        at = self.tab.atoms[a]
+        if at.head == 'call' and at.extra and at.extra[0] in self.ALLOC_FNS:
+            return True
+        if at.head == 'tuple' and not at.args:
+            return True
+        return False
+
+    def assume(self, test_rf, truth):
+        """Inside a branch where test_rf is known, guard atoms on the same
+        condition collapse to the taken side."""
+        tab = self.tab
+        has = [k for k, v in self.env.items() if isinstance(v, RF) and
+               v.mentions(lambda a: a.head == 'guard')]
+        if not has:
+            return
+
+        def f(a, at, nargs):
+            if at.head == 'guard' and tab.arg_eq(nargs[0], test_rf):
+                return nargs[1] if truth else nargs[2]
+            return None
+        for k in has:
+            self.env[k] = tab.rewrite(self.env[k], f)
+
     def bind(self, target, value_rf, node, op=None):
         t = self.tab
         if isinstance(target, ast.Name):
+            if op is None and self.is_alloc(value_rf):
+                value_rf = self.fresh(target.id, value_rf)
             self.env[target.id] = value_rf
             self.assign_log.setdefault(target.id, []).append((node, value_rf))
             self.ev('assign', node, name=target.id, value=value_rf, op=op)
@@ -203,6 +248,15 @@ class Flow:
                 else:
                     self.bind(e, elts[i] if elts else
                               t.atom('item', (value_rf, t.const(i))), node)
+        elif isinstance(target, ast.Subscript) and isinstance(
+                target.value, ast.Name) and self._whole(target):
+            # X[...] = v  /  X[:] = v : the buffer is refilled; from here on the
+            # name denotes a fresh buffer holding v
+            name = target.value.id
+            old = self.env.get(name)
+            new = self.fresh(name, value_rf)
+            self.env[name] = new
+            self.ev('reset', node, name=name, value=value_rf, old=old, new=new)
         elif isinstance(target, (ast.Subscript, ast.Attribute)):
             # keep raw subscript target (no broadcast erasure needed for stores)
             trf = self.expr(target)
@@ -215,6 +269,19 @@ class Flow:
         else:
             raise AnalysisError('unsupported assignment target %s at %s' %
                                 (ast.unparse(target), self.func.loc(node)))
+
+    @staticmethod
+    def _whole(target):
+        sl = target.slice
+        items = list(sl.elts) if isinstance(sl, ast.Tuple) else [sl]
+        for it in items:
+            if isinstance(it, ast.Constant) and it.value is Ellipsis:
+                continue
+            if isinstance(it, ast.Slice) and it.lower is None and \
+                    it.upper is None and it.step is None:
+                continue
+            return False
+        return True
 
     def attr_store(self, d, value_rf):
         pass  # attribute values are not forwarded (kept as atoms); see rules
